@@ -52,7 +52,7 @@ def pairOK (up : Bool) (dbO dbN : DB) : Bool :=
   dbO.all (fun tbO => dbN.all (fun tbN => tbO.name != tbN.name || bothOK up tbO tbN))
 
 def scripts (g : Globals) (old new : List Stmt) : Bool :=
-  g.dialect == .mysql && !g.ignoreOrder && old.all stmtElemSafe && new.all stmtElemSafe &&
+  g.dialect == .mysql && old.all stmtElemSafe && new.all stmtElemSafe &&
     old.all stmtPlainOpts && new.all stmtPlainOpts
 
 /-- inside the scope of `C01.schema_on_reference_engine` -/
@@ -61,5 +61,16 @@ def up (g : Globals) (old new : List Stmt) (dbO dbN : DB) : Bool := scripts g ol
 def down (g : Globals) (old new : List Stmt) (dbO dbN : DB) : Bool := scripts g old new && pairOK false dbO dbN
 /-- inside the scope of `C03.schema_on_reference_engine` -/
 def both (g : Globals) (old new : List Stmt) (dbO dbN : DB) : Bool := up g old new dbO dbN && down g old new dbO dbN
+
+/-- the first hypothesis of the up theorem a pair fails (for the coverage statistics of the evidence) -/
+def whyNot (g : Globals) (old new : List Stmt) (dbO dbN : DB) : String :=
+  if g.dialect != .mysql then "dialect"
+  else if !(old.all stmtElemSafe && new.all stmtElemSafe) then "vocabulary"
+  else if !(old.all stmtPlainOpts && new.all stmtPlainOpts) then "inline-primary-key-or-reference"
+  else if !(dbO ++ dbN).all (fun tb => tb.fks.isEmpty) then "foreign-keys"
+  else if !(dbO ++ dbN).all (fun tb => tb.cols.all (fun c => c.opts.all coptNoComment)) then "comment-option"
+  else if !(dbO ++ dbN).all tableOK then "table-name"
+  else if !pairOK true dbO dbN then "common-table"
+  else "inside"
 
 end Sqlize.Spec.Scope.Proved
